@@ -215,6 +215,28 @@ IMPORTS = "From KP Require Import model.Base model.Trace model.M5time corr.C17co
 CODES = {1: "deploy-bound", 2: "pause-stop-bound", 3: "non-blocking", 4: "probe-after-dead"}
 
 
+# kinds that neither the view nor the monitor reads; such events by non-command actors are
+# projected away before the trace goes to Coq (they would only advance the view's clock)
+UNREAD = {"probe-apply", "rotation", "routed", "pick", "gate-read", "gate-result", "gate-wake", "lb-claim", "at-target",
+          "target-replied", "target-failed", "arrive", "respond", "claim-refused", "hijacked"}
+
+
+def project(events):
+    return [e for e in events if not (e["kind"] in UNREAD and not re.fullmatch(r"c\d+", e["g"] or ""))]
+
+
+def trace_def(events):
+    """Coq text defining tr; repeated byte-string literals are shared through definitions"""
+    term = m5.trace_term(events)
+    lits = {}
+
+    def sub(m):
+        return lits.setdefault(m.group(0), "s_%d" % len(lits))
+    term = re.sub(r"\[x[0-9a-f]{2}(?:;x[0-9a-f]{2})*\]", sub, term)
+    defs = "".join("Definition %s : str := %s.\n" % (v, k) for k, v in lits.items())
+    return defs + "Definition tr : trace := %s.\n" % term
+
+
 def parse_eval(txt):
     """'(None, [])' / '(Some 12, [(5, 4); (9, 1)])' (with optional %nat / %N)"""
     t = re.sub(r"%(nat|N)", "", txt.strip())
@@ -294,7 +316,7 @@ def run(tier, seed):
             from concurrent.futures import ThreadPoolExecutor
 
             def ev(i):
-                body = "Definition tr : trace := %s.\nDefinition R := Eval vm_compute in eval_trace tr.\n" % m5.trace_term(outs[i]["events"])
+                body = trace_def(project(outs[i]["events"])) + "Definition R := Eval vm_compute in eval_trace tr.\n"
                 return i, parse_eval(coq_eval(work, "T_%d" % i, IMPORTS, body, "R"))
             with ThreadPoolExecutor(max_workers=16) as ex:
                 for i, (rej, fails) in ex.map(ev, range(len(scs))):
@@ -335,7 +357,7 @@ def run(tier, seed):
         ]
         if mon_fail:
             i, fails = mon_fail[0]
-            items = term_items(outs[i]["events"])
+            items = term_items(project(outs[i]["events"]))
             pos, code = fails[0]
             res.violation("monitor-%d" % i, {"property": "C17", "what": "monitor c17_ok false on an implementation trace: " + CODES.get(code, str(code)),
                                              "failures": [[p, CODES.get(c, str(c)), items[p] if p < len(items) else None] for p, c in fails[:10]],
@@ -348,7 +370,7 @@ def run(tier, seed):
                        "broken": "model/M5time.v step" if rejected else "harness/sim_test.go" if not harness_ok else "props/C17.v"}
             if rejected:
                 i, k = rejected[0]
-                items = term_items(outs[i]["events"])
+                items = term_items(project(outs[i]["events"]))
                 payload.update({"scenario": scs[i], "rejected_at": k, "event": items[k] if k < len(items) else None,
                                 "context": items[max(0, k - 15):k], "rejected_traces": len(rejected)})
             if not harness_ok:
